@@ -47,14 +47,14 @@ type c02State struct {
 	lastEpoch uint64
 	// ledger of acknowledged explicit freezes: "provider|chain" -> height of the freeze tx; cleared by
 	// any later acknowledged unfreeze / stake / unstake / move-stake touching that provider
-	frozen     map[string]uint64
-	sweeps     int
+	frozen map[string]uint64
+	sweeps int
 	// height of the last accepted in-place plan modification (it changes, retroactively for the
 	// running epoch, the policy that VerifyPairing reads, while the per-block pairing relay cache may
 	// still hold the pairing computed before it)
 	planModHeight uint64
-	nonEmpty   int
-	newPlanSeq int
+	nonEmpty      int
+	newPlanSeq    int
 }
 
 // one run at a time per worker process
@@ -977,7 +977,7 @@ func c02Weights() map[string]int {
 		"delegate": 3, "redelegate": 1, "unbond": 3, "claim": 0,
 		"val_delegate": 1, "val_undelegate": 1, "val_redelegate": 0,
 		"buy": 5, "autorenew": 1, "addproject": 4, "delproject": 1, "keys": 4, "setpolicy": 2,
-		"relay": 6,
+		"relay":    6,
 		"c02stake": 10, "c02freeze": 5, "c02policy": 14, "c02plan": 4, "c02check": 7, "c02complain": 6, "c02epochs": 4,
 	}
 }
@@ -1076,7 +1076,7 @@ func init() {
 	AddOp("c02complain", (*Sim).opC02Complain)
 	AddOp("c02epochs", (*Sim).opC02Epochs)
 	simrt.Register("C02", &simrt.PropSpec{Fn: runC02, NonTrivial: c02NonTrivial,
-		Rule: "tape-generated histories on the base chain world plus a spec with a mandatory collection, two add-ons, an optional api interface and extensions (and sometimes a static-provider spec): providers (re)stake with per-geolocation endpoints supporting random subsets of interfaces/add-ons/extensions, freeze/unfreeze, unstake, move stake, delegations; plans are added/modified by governance proposals and subscription/admin policies set through the msg servers with geolocation profiles, max-providers, selected-provider modes (ALLOWED/MIXED/EXCLUSIVE/DISABLED) and chain requirements (collections + extensions, mixed or not); relays populate the pairing relay cache and carry unresponsiveness complaints that get a provider jailed. After every epoch start, in the block after an in-place plan modification and at tape-chosen mid-epoch points, for every developer key x dynamic spec the five clauses of the statement are evaluated (eligibility by an independent predicate). Non-trivial = >=10 accepted operations, >=5 non-empty pairings examined, eligible!=max seen and at least one of exclusive/mixed/requirement/unapplied-stake situations; distinct = (op,outcome,fault) sequence hash",
+		Rule:    "tape-generated histories on the base chain world plus a spec with a mandatory collection, two add-ons, an optional api interface and extensions (and sometimes a static-provider spec): providers (re)stake with per-geolocation endpoints supporting random subsets of interfaces/add-ons/extensions, freeze/unfreeze, unstake, move stake, delegations; plans are added/modified by governance proposals and subscription/admin policies set through the msg servers with geolocation profiles, max-providers, selected-provider modes (ALLOWED/MIXED/EXCLUSIVE/DISABLED) and chain requirements (collections + extensions, mixed or not); relays populate the pairing relay cache and carry unresponsiveness complaints that get a provider jailed. After every epoch start, in the block after an in-place plan modification and at tape-chosen mid-epoch points, for every developer key x dynamic spec the five clauses of the statement are evaluated (eligibility by an independent predicate). Non-trivial = >=10 accepted operations, >=5 non-empty pairings examined, eligible!=max seen and at least one of exclusive/mixed/requirement/unapplied-stake situations; distinct = (op,outcome,fault) sequence hash",
 		Real:    chainReal,
 		Stubbed: chainStub,
 		Assume: append(append([]string{}, chainAssume...),
@@ -1086,4 +1086,3 @@ func init() {
 			"queries (GetPairingForClient, VerifyPairing) run on a discarded branch of the block state, as on a node"),
 	})
 }
-
